@@ -461,6 +461,56 @@ def rule_cube_exits(rep, repo):
                   f"unit conversion applied on one exit only)", f.loc(), [f"first differing node at {d[0]}"])
 
 
+def rule_molecule_box(rep, repo):
+    """`UniformGrid.from_molecule`: the box must contain every nucleus with the requested margin (less
+    one spacing).  Its size is the atomic extent plus twice the extension, so its lower corner is
+    determined, up to one spacing, by the lower (or upper) bound of the projected atomic coordinates.
+    Necessary condition checked on the value graph: the origin handed to the constructor depends on
+    `min`/`max` of the coordinates by a path that does not go through the point counts (the counts only
+    see the difference max - min, which carries no position)."""
+    from gridlint import e5
+    f = repo.method("UniformGrid", "from_molecule")
+    vg = e5.VG(repo, "UniformGrid", f.node, inline=False)
+    vg.run(strip_docstring(f.node.body))
+    r = vg.ret
+    if r is None or r[0] != "call" or e5.show(r[1]) not in ("cls", "UniformGrid"):
+        raise AnalysisError("unrecognised idiom: from_molecule does not return cls(origin, axes, shape, ...)")
+    init = repo.method("UniformGrid", "__init__")
+    names = init.params[1:]
+    bound = dict(zip(names, r[2]))
+    bound.update(dict(r[3]))
+    if "origin" not in bound or "shape" not in bound:
+        raise AnalysisError("unrecognised idiom: from_molecule does not pass origin and shape")
+    origin, shape = bound["origin"], bound["shape"]
+    cut = e5._subst(origin, shape, ("sym", "POINT_COUNTS"))
+    # also cut the un-converted count expression (shape before np.array(..., int) / np.ceil)
+    inner = shape
+    while isinstance(inner, tuple) and inner and inner[0] == "call" and len(inner[2]) >= 1 and \
+            e5.show(inner[1]) in ("np.array", "np.ceil", "np.asarray", "np.rint", "np.floor"):
+        inner = inner[2][0]
+        cut = e5._subst(cut, inner, ("sym", "POINT_COUNTS"))
+    anchors = []
+
+    def walk(t):
+        if isinstance(t, tuple):
+            if t and t[0] == "call" and e5.show(t[1]).split(".")[-1] in ("amin", "amax", "min", "max") and t[2]:
+                anchors.append(e5.show(t[1]))
+            for x in t:
+                walk(x)
+    walk(cut)
+    cons = "cubic.UniformGrid.from_molecule"
+    if anchors:
+        rep.ok("molecule-box-anchored-to-extent", "UniformGrid.from_molecule", f.loc(),
+               f"origin depends on {sorted(set(anchors))} of the atomic coordinates")
+    else:
+        rep.violation("molecule-box-anchored-to-extent", cons, "origin",
+                      f"the origin is {e5.show(cut, 150)}: apart from the point counts (which only see max - min) it does "
+                      f"not depend on the lower or upper bound of the atomic coordinates, so the box is centred on the "
+                      f"centre of nuclear charge instead of on the atomic extent -- for an asymmetric molecule nuclei end "
+                      f"up outside the box (e.g. charges 100 and 1 at x = 0 and 10, extension 5: the second nucleus is "
+                      f"0.4 outside)", f.loc())
+
+
 def _branch_for_dim(fn, nd):
     body = strip_docstring(fn.body)
     for i, s in enumerate(body):
@@ -529,6 +579,7 @@ def run(tier="quick", root="/repo", evidence_dir=None, quiet=False):
     rep.attempt(rule_layout, rep, repo)
     rep.attempt(rule_index_maps, rep, repo)
     rep.attempt(rule_cube_exits, rep, repo)
+    rep.attempt(rule_molecule_box, rep, repo)
     rep.extra.update({"functions_in_scope": len(scope), "weight_schemes": keys, "source_digest": repo.digest(["cubic"])})
     return rep.finish(evidence_dir=evidence_dir, quiet=quiet)
 
